@@ -21,6 +21,8 @@ structure StableOps (P : St → Prop) : Prop where
   argv : ∀ s i v, P s → P (s.setArgv i v)
   argc : ∀ s n, P s → P (s.setArgc n)
   close : ∀ s f, P s → P (s.closeStream f)
+  fname : ∀ s v, P s → P (s.assignFilename v)
+  fsep : ∀ s v, P s → P (s.assignFs v)
   enter : ∀ s, P s → P s.enterCall
   leave : ∀ s, P s → P s.leaveCall
 
@@ -69,6 +71,8 @@ theorem execOp_preserves {P : St → Prop} (hP : StableOps P) : ∀ (o : Op) (s 
   | .setArgv i v, s, h => by simp [execOp]; exact hP.argv s i v h
   | .setArgc n, s, h => by simp [execOp]; exact hP.argc s n h
   | .close f, s, h => by simp [execOp]; exact hP.close s f h
+  | .setFilename v, s, h => by simp [execOp]; exact hP.fname s v h
+  | .setFs v, s, h => by simp [execOp]; exact hP.fsep s v h
 theorem execOps_preserves {P : St → Prop} (hP : StableOps P) : ∀ (os : List Op) (s : St), P s → P (execOps os s).2
   | [], s, h => by simp [execOps]; exact h
   | o :: os, s, h => by
